@@ -395,7 +395,8 @@ func endsInSlash(v ssa.Value) bool {
 	switch x := v.(type) {
 	case *ssa.BinOp:
 		if x.Op == token.ADD {
-			if s, ok := ssax.ConstString(x.Y); ok && strings.HasSuffix(s, "/") {
+			// "/" separates the elements of an FS name, the OS separator those of an OS path (`\` on windows)
+			if s, ok := ssax.ConstString(x.Y); ok && (strings.HasSuffix(s, "/") || strings.HasSuffix(s, `\`)) {
 				return true
 			}
 		}
